@@ -535,7 +535,11 @@ Definition out_group (l : list (option orule)) : list (Z * orule) :=
 Definition out_load_all (s : out_state) (l : list (option orule)) : out_state * result :=
   let g := out_group l in
   if amap_eqb out_deep_eq (out_raw s) g then (s, r_unchanged)
-  else ({| out_raw := g; out_rules := filter (fun kv => out_valid (snd kv)) g |}, r_changed).
+  else ({| out_raw := g;
+           out_rules := amap_of (fun k => match alookup k g with
+                                          | Some r => if out_valid r then Some r else None
+                                          | None => None
+                                          end) (akeys g) |}, r_changed).
 
 (* LoadRuleOfResource(res, rule); None = nil rule = clear *)
 Definition out_load_res (s : out_state) (res : Z) (r : option orule) : out_state * result :=
